@@ -449,7 +449,7 @@ def build_overlay_test(rundir, pkg, go="go1.26", tags="verif", race=False):
     json.dump({"Replace": repl}, open(ov, "w"))
     binp = os.path.join(rundir, os.path.basename(pkg) + (".race.test" if race else ".test"))
     rc, o, e = sh([go, "test", "-c", "-vet=off"] + (["-race"] if race else []) + ["-overlay", ov, "-tags", tags, "-o", binp, "./" + pkg],
-                  cwd=REPO, env=GOENV, timeout=900)
+                  cwd=REPO, env=(dict(GOENV, CGO_ENABLED="1") if race else GOENV), timeout=900)
     return rc == 0, binp, (o + e).decode(errors="replace")
 
 
